@@ -339,7 +339,7 @@ pub fn drive(seed: u64, tier: &str, stim: Option<&str>, out: &mut Out) {
                             h.to_writer(&mut v).map(|()| v)
                         }
                     });
-                    views.push(json!({"res": "ok", "fields": format!("{h:?}")}));
+                    views.push(json!({"res": "ok", "fields": toks.tok(format!("{h:?}").as_bytes())}));
                     bts.push(match w {
                         Ok(Ok(v)) => toks.tok(&v),
                         _ => 0,
